@@ -31,6 +31,7 @@
 //!   R14 (with R10h) `V.into_iter().rev()` -> `verif_rev_vec(V)`
 //!   R21 (`//@name_call METHOD K` + ghost text) the K-th call `X.METHOD(.., CLOSURE)` is evaluated in front of its statement with the closure and the result bound to names
 //!   R20 an item (nested fn) declared inside the extracted body is dropped from the body text
+//!   R22 (`inline=CALLEE@FILE@IMPL`) the call `self.CALLEE(.., closure)` is replaced by CALLEE's body from /repo with the closure's body substituted for its calls
 //!   R19d (`lower=fold_axis`) `X.fold_axis(ax, init, |acc, elem| BLOCK)` -> per lane, an accumulator cloned from init threaded through the lane
 //!   R19c (`lower=map_axis_mut`) `X.map_axis_mut(ax, |lane| EXPR)` -> loop over lane positions storing EXPR as result j
 //!   R19 / R19b (`//@extract .. lower=fold,for_each`) `X.fold(init, |acc, item| BLOCK)` / `X.for_each(|item| BLOCK)` -> loops over the visited items
@@ -206,7 +207,10 @@ struct SrcFile {
 impl SrcFile {
     fn load(p: &Path) -> SrcFile {
         let text = fs::read_to_string(p).unwrap_or_else(|e| die(3, format!("cannot read {}: {}", p.display(), e)));
-        let ast = syn::parse_file(&text).unwrap_or_else(|e| die(3, format!("cannot parse {}: {}", p.display(), e)));
+        SrcFile::from_text(text, &p.display().to_string())
+    }
+    fn from_text(text: String, what: &str) -> SrcFile {
+        let ast = syn::parse_file(&text).unwrap_or_else(|e| die(3, format!("cannot parse {}: {}", what, e)));
         let mut line_starts = vec![0usize];
         for (i, b) in text.bytes().enumerate() {
             if b == b'\n' {
@@ -307,6 +311,146 @@ fn find_fn<'a>(items: &'a [syn::Item], name: &str, imp: Option<&str>, out: &mut 
     }
 }
 
+// R22 (opt-in `inline=CALLEE@FILE@IMPL`): the single call `self.CALLEE(ARGS.., |P0, P1, ..| CBODY)` in the body of the extracted
+// function is replaced, textually and on every run, by the body of CALLEE as it stands in /repo:
+//   { let <param> = <arg>; ..   <body of CALLEE, in which every call `f(A0, A1, ..)` of its closure parameter reads
+//                                 `{ let P0 = A0; let P1 = A1; ..; CBODY }`> }
+// The receiver must be `self` (so `self` in the inlined body needs no renaming), the closure parameter may only be called, and
+// no variable that CBODY takes from its environment may be captured by a binding of CALLEE (checked; otherwise lost-anchor).
+// The result is re-parsed and goes through the ordinary pipeline (so the `.fold(..)` of an inlined body can be lowered by R19).
+// A closure whose body is turned into the body of a loop (R3, R11*, R19*) or spliced into another function (R22) must not contain
+// `return` or `?`: inside the closure they leave the closure, inside the loop they would leave the function.  Such a body is not
+// lowered; the function is reported as undecided (lost anchor), never as a violation.
+struct EscapeFinder { found: bool }
+impl<'ast> Visit<'ast> for EscapeFinder {
+    fn visit_expr_return(&mut self, _r: &'ast syn::ExprReturn) { self.found = true; }
+    fn visit_expr_try(&mut self, _t: &'ast syn::ExprTry) { self.found = true; }
+    fn visit_expr_closure(&mut self, _c: &'ast syn::ExprClosure) {}
+    fn visit_item(&mut self, _i: &'ast syn::Item) {}
+}
+fn closure_must_not_escape(cl: &syn::ExprClosure) {
+    let mut f = EscapeFinder { found: false };
+    f.visit_expr(&cl.body);
+    if f.found { die(3, "lost-anchor: a closure that is lowered to a loop body contains `return` or `?` (they would leave the function instead of the closure)".into()); }
+}
+struct IdentCollector { idents: std::collections::BTreeSet<String> }
+impl<'ast> Visit<'ast> for IdentCollector {
+    fn visit_ident(&mut self, i: &'ast proc_macro2::Ident) { self.idents.insert(i.to_string()); }
+    fn visit_macro(&mut self, m: &'ast syn::Macro) {
+        for t in m.tokens.clone() { collect_tt_idents(&t, &mut self.idents); }
+    }
+}
+fn collect_tt_idents(t: &proc_macro2::TokenTree, out: &mut std::collections::BTreeSet<String>) {
+    match t {
+        proc_macro2::TokenTree::Ident(i) => { out.insert(i.to_string()); }
+        proc_macro2::TokenTree::Group(g) => { for x in g.stream() { collect_tt_idents(&x, out); } }
+        _ => {}
+    }
+}
+struct BindCollector { names: std::collections::BTreeSet<String> }
+impl<'ast> Visit<'ast> for BindCollector {
+    fn visit_pat_ident(&mut self, p: &'ast syn::PatIdent) { self.names.insert(p.ident.to_string()); syn::visit::visit_pat_ident(self, p); }
+}
+struct CallFinder<'s> { src: &'s SrcFile, method: String, hits: Vec<((usize, usize), Vec<(usize, usize)>, String)> }
+impl<'ast, 's> Visit<'ast> for CallFinder<'s> {
+    fn visit_expr_method_call(&mut self, c: &'ast syn::ExprMethodCall) {
+        if c.method == self.method.as_str() {
+            let recv = self.src.text[self.src.range(c.receiver.span()).0..self.src.range(c.receiver.span()).1].trim().to_string();
+            self.hits.push((self.src.range(c.span()), c.args.iter().map(|a| self.src.range(a.span())).collect(), recv));
+        }
+        syn::visit::visit_expr_method_call(self, c);
+    }
+}
+struct ParamUse<'s> { src: &'s SrcFile, name: String, calls: Vec<((usize, usize), Vec<(usize, usize)>)>, other_uses: usize }
+impl<'ast, 's> Visit<'ast> for ParamUse<'s> {
+    fn visit_expr_call(&mut self, c: &'ast syn::ExprCall) {
+        if let syn::Expr::Path(p) = &*c.func {
+            if p.path.is_ident(self.name.as_str()) {
+                self.calls.push((self.src.range(c.span()), c.args.iter().map(|a| self.src.range(a.span())).collect()));
+                for a in &c.args { self.visit_expr(a); }
+                return;
+            }
+        }
+        syn::visit::visit_expr_call(self, c);
+    }
+    fn visit_expr_path(&mut self, p: &'ast syn::ExprPath) {
+        if p.path.is_ident(self.name.as_str()) { self.other_uses += 1; }
+    }
+}
+fn inline_call(src: &SrcFile, caller: &Found, callee_src: &SrcFile, callee: &Found, callee_name: &str, ascribe: Option<(&str, &str)>) -> (String, usize) {
+    let mut cf = CallFinder { src, method: callee_name.to_string(), hits: vec![] };
+    cf.visit_block(caller.block);
+    if cf.hits.len() != 1 { die(3, format!("lost-anchor: inline: {} calls of {} in the body (exactly one expected)", cf.hits.len(), callee_name)); }
+    let ((ca, cb), args, recv) = cf.hits.remove(0);
+    if recv != "self" { die(3, format!("lost-anchor: inline: receiver of {} is `{}`, not `self`", callee_name, recv)); }
+    // parameters of the callee (after the receiver)
+    let mut params = vec![];
+    for inp in callee.sig.inputs.iter() {
+        match inp {
+            syn::FnArg::Receiver(_) => {}
+            syn::FnArg::Typed(t) => match &*t.pat {
+                syn::Pat::Ident(pi) => params.push(pi.ident.to_string()),
+                _ => die(3, format!("lost-anchor: inline: parameter pattern of {} is not an identifier", callee_name)),
+            },
+        }
+    }
+    if params.len() != args.len() || args.is_empty() { die(3, format!("lost-anchor: inline: {} takes {} arguments, the call has {}", callee_name, params.len(), args.len())); }
+    // the closure argument: the last one
+    let (la, lb) = *args.last().unwrap();
+    let cl: syn::ExprClosure = syn::parse_str(&src.text[la..lb]).unwrap_or_else(|_| die(3, format!("lost-anchor: inline: the last argument of {} is not a closure", callee_name)));
+    // spans of a re-parsed fragment are relative to the fragment
+    closure_must_not_escape(&cl);
+    let frag = SrcFile { text: src.text[la..lb].to_string(), line_starts: { let mut v = vec![0usize]; for (i, b) in src.text[la..lb].bytes().enumerate() { if b == b'\n' { v.push(i + 1); } } v }, ast: syn::parse_str("").unwrap() };
+    let pats: Vec<String> = cl.inputs.iter().map(|p| { let (a, b) = frag.range(p.span()); frag.text[a..b].to_string() }).collect();
+    let (ba, bb) = frag.range(cl.body.span());
+    let cbody = frag.text[ba..bb].to_string();
+    let fparam = params.last().unwrap().clone();
+    // hygiene: what CBODY takes from its environment must not be captured by a binding of the callee
+    let mut used = IdentCollector { idents: Default::default() };
+    used.visit_expr(&cl.body);
+    let mut own = BindCollector { names: Default::default() };
+    for p in &cl.inputs { own.visit_pat(p); }
+    own.visit_expr(&cl.body);
+    let mut theirs = BindCollector { names: Default::default() };
+    theirs.visit_block(callee.block);
+    for p in &params { theirs.names.insert(p.clone()); }
+    for n in &used.idents {
+        if theirs.names.contains(n) && !own.names.contains(n) {
+            die(3, format!("lost-anchor: inline: `{}` used by the closure would be captured by a binding of {}", n, callee_name));
+        }
+    }
+    // the callee's body with the calls of its closure parameter replaced
+    let mut pu = ParamUse { src: callee_src, name: fparam.clone(), calls: vec![], other_uses: 0 };
+    pu.visit_block(callee.block);
+    if pu.other_uses != 0 || pu.calls.is_empty() { die(3, format!("lost-anchor: inline: {} uses its closure parameter other than by calling it ({} calls, {} other uses)", callee_name, pu.calls.len(), pu.other_uses)); }
+    let (kb, ke) = callee_src.range(callee.block.span());
+    let mut body = String::new();
+    let mut pos = kb;
+    pu.calls.sort();
+    for ((a, b), cargs) in &pu.calls {
+        if cargs.len() != pats.len() { die(3, format!("lost-anchor: inline: {} calls its closure with {} arguments, the closure takes {}", callee_name, cargs.len(), pats.len())); }
+        body.push_str(&callee_src.text[pos..*a]);
+        body.push_str("{ ");
+        for (p, (x, y)) in pats.iter().zip(cargs.iter()) { body.push_str(&format!("let {} = {}; ", p, &callee_src.text[*x..*y])); }
+        body.push_str(&cbody);
+        body.push_str(" }");
+        pos = *b;
+    }
+    body.push_str(&callee_src.text[pos..ke]);
+    let mut rep = String::from("{ ");
+    // `inline_ty=PARAM:TYPE` writes the type the source leaves to inference (through the callee's generic signature) on the binding
+    for (p, (x, y)) in params.iter().zip(args.iter()).take(params.len() - 1) {
+        match ascribe { Some((n, t)) if n == p => rep.push_str(&format!("let {}: {} = {}; ", p, t, &src.text[*x..*y])), _ => rep.push_str(&format!("let {} = {}; ", p, &src.text[*x..*y])) }
+    }
+    rep.push_str(&body);
+    rep.push_str(" }");
+    let mut text = String::new();
+    text.push_str(&src.text[..ca]);
+    text.push_str(&rep);
+    text.push_str(&src.text[cb..]);
+    (text, callee_src.line_of(kb))
+}
+
 #[derive(Debug, Clone)]
 struct StmtInfo {
     start: usize,
@@ -342,6 +486,7 @@ struct BodyScan {
     // R19d: outer loop ordinal -> offset of the end of the closure's block (anchors `loop_tail` / `after_loop` of the outer loop)
     outer_fold_axis: BTreeMap<usize, usize>,
     outer_fold_axis_start: BTreeMap<usize, usize>,
+    cmp_kinds: Vec<String>,
     // calls by name: (enclosing stmt)
     calls: BTreeMap<String, Vec<StmtInfo>>,
     lets: BTreeMap<String, Vec<StmtInfo>>,
@@ -627,6 +772,14 @@ impl<'a, 'ast> Visit<'ast> for Scanner<'a> {
             let r = self.src.range(b.right.span());
             self.scan.binops.entry(op.to_string()).or_default().push((l, r));
         }
+        // `//@binop cmp N PREFIX`: the N-th order comparison, whichever of `<`, `<=`, `>`, `>=` it is, becomes PREFIX_lt / _le / _gt / _ge
+        let cmp = match &b.op { syn::BinOp::Lt(_) => "lt", syn::BinOp::Le(_) => "le", syn::BinOp::Gt(_) => "gt", syn::BinOp::Ge(_) => "ge", _ => "" };
+        if !cmp.is_empty() {
+            let l = self.src.range(b.left.span());
+            let r = self.src.range(b.right.span());
+            self.scan.binops.entry("cmp".to_string()).or_default().push((l, r));
+            self.scan.cmp_kinds.push(cmp.to_string());
+        }
         syn::visit::visit_expr_binary(self, b);
     }
     fn visit_expr_closure(&mut self, c: &'ast syn::ExprClosure) {
@@ -649,6 +802,7 @@ impl<'a, 'ast> Visit<'ast> for Scanner<'a> {
             if let syn::Expr::MethodCall(inner) = &*c.receiver {
                 if inner.method == "iter_mut" && inner.args.is_empty() {
                     if let syn::Expr::Closure(cl) = &c.args[0] {
+                        closure_must_not_escape(cl);
                         if cl.inputs.len() == 1 {
                             let mut ids = vec![];
                             pat_idents(&cl.inputs[0], &mut ids);
@@ -674,6 +828,7 @@ impl<'a, 'ast> Visit<'ast> for Scanner<'a> {
         // R11: Zip::from(X).and(Y).for_each(|a, b| BODY)
         if c.method == "for_each" && c.args.len() == 1 {
             if let (syn::Expr::MethodCall(andc), syn::Expr::Closure(cl)) = (&*c.receiver, &c.args[0]) {
+                closure_must_not_escape(cl);
                 if andc.method == "and" && andc.args.len() == 1 && cl.inputs.len() == 2 {
                     if let syn::Expr::Call(fc) = &*andc.receiver {
                         let is_zip_from = if let syn::Expr::Path(p) = &*fc.func { let v: Vec<String> = p.path.segments.iter().map(|x| x.ident.to_string()).collect(); v.len() >= 2 && v[v.len() - 2] == "Zip" && v[v.len() - 1] == "from" } else { false };
@@ -704,6 +859,7 @@ impl<'a, 'ast> Visit<'ast> for Scanner<'a> {
         //      unspecified order) is taken out, handed to BODY under the closure's parameter names and put back
         if c.method == "for_each" && c.args.len() == 1 {
             if let (syn::Expr::MethodCall(andc), syn::Expr::Closure(cl)) = (&*c.receiver, &c.args[0]) {
+                closure_must_not_escape(cl);
                 if andc.method == "and" && andc.args.len() == 1 && cl.inputs.len() == 2 && matches!(&*cl.body, syn::Expr::Block(_)) {
                     if let syn::Expr::Call(fc) = &*andc.receiver {
                         let is_zip_from = if let syn::Expr::Path(p) = &*fc.func { let v: Vec<String> = p.path.segments.iter().map(|x| x.ident.to_string()).collect(); v.len() >= 2 && v[v.len() - 2] == "Zip" && v[v.len() - 1] == "from" } else { false };
@@ -750,6 +906,7 @@ impl<'a, 'ast> Visit<'ast> for Scanner<'a> {
         //      for (__i, P1', P2') in it: __zip { <R13 lets> let mut __slot = T.verif_get(__i); BODY[*r := __slot] ; T.verif_set(__i, __slot); }
         if c.method == "for_each" && c.args.len() == 1 {
             if let (syn::Expr::MethodCall(and2), syn::Expr::Closure(cl)) = (&*c.receiver, &c.args[0]) {
+                closure_must_not_escape(cl);
                 if and2.method == "and" && and2.args.len() == 1 && cl.inputs.len() == 3 {
                     if let syn::Expr::MethodCall(and1) = &*and2.receiver {
                         if and1.method == "and" && and1.args.len() == 1 {
@@ -813,7 +970,10 @@ impl<'a, 'ast> Visit<'ast> for Scanner<'a> {
         //   { let __fo = verif_fold_items(RECV); let ghost __fos = __fo@; let mut __acc = INIT; for item in it: __fo <contract> { let acc = __acc; __acc = BLOCK; } __acc }
         if self.lower.contains("fold") && c.method == "fold" && c.args.len() == 2 {
             if let syn::Expr::Closure(cl) = &c.args[1] {
-                if cl.inputs.len() == 2 && matches!(&*cl.body, syn::Expr::Block(_)) {
+                closure_must_not_escape(cl);
+                if cl.inputs.len() == 2 {
+                    // the closure's body is a block, or any other expression (then braces are put around it)
+                    let is_block = matches!(&*cl.body, syn::Expr::Block(_));
                     let (a, _) = self.src.range(c.span());
                     let (_, ce) = self.src.range(c.span());
                     let (bs, be) = self.src.range(cl.body.span());
@@ -822,13 +982,14 @@ impl<'a, 'ast> Visit<'ast> for Scanner<'a> {
                     let p_acc = self.text(cl.inputs[0].span()).to_string();
                     let p_item = self.text(cl.inputs[1].span()).to_string();
                     self.scan.rewrites.push((a, bs, format!("{{ let __fo = verif_fold_items({}); let ghost __fos = __fo@; let mut __acc = {}; for {} in it: __fo ", recv, init, p_item), "R19".into()));
-                    self.scan.rewrites.push((bs, bs, format!("{{ let {} = __acc; __acc = ", p_acc), "R19-late".into()));
-                    self.scan.rewrites.push((be, be, ";".to_string(), "R19".into()));
+                    self.scan.rewrites.push((bs, bs, format!("{{ let {} = __acc; __acc = {}", p_acc, if is_block { "" } else { "{ " }), "R19-late".into()));
+                    self.scan.rewrites.push((be, be, (if is_block { ";" } else { " };" }).to_string(), "R19".into()));
                     self.scan.rewrites.push((be, be, " }".to_string(), "R19-late".into()));
                     self.scan.rewrites.push((be, ce, " __acc }".to_string(), "R19".into()));
                     let (s0, e0) = self.src.range(c.span());
                     // loop contract before the generated body block, `loop_end` after the accumulator has been assigned
                     self.scan.loops.push((bs, be, s0, e0));
+                    if !is_block { self.scan.expr_body_loops.insert(self.scan.loops.len() - 1); }
                     self.scan.fold_loops.insert(self.scan.loops.len() - 1);
                     self.record_call("verif_fold_items".into());
                     syn::visit::visit_expr(self, &cl.body);
@@ -844,6 +1005,7 @@ impl<'a, 'ast> Visit<'ast> for Scanner<'a> {
         //        __res.verif_put(__j, __a); <loop_tail n> } <after_loop n> __res.verif_finish() }
         if self.lower.contains("fold_axis") && c.method == "fold_axis" && c.args.len() == 3 {
             if let syn::Expr::Closure(cl) = &c.args[2] {
+                closure_must_not_escape(cl);
                 if cl.inputs.len() == 2 && matches!(&*cl.body, syn::Expr::Block(_)) {
                     let (a, _) = self.src.range(c.span());
                     let (_, ce) = self.src.range(c.span());
@@ -881,6 +1043,7 @@ impl<'a, 'ast> Visit<'ast> for Scanner<'a> {
         //     for __j in it: __lz <contract> { let lane = X.verif_take_lane(AX, __j); let __v = EXPR; __res.verif_put(__j, __v); } __res.verif_finish() }
         if self.lower.contains("map_axis_mut") && c.method == "map_axis_mut" && c.args.len() == 2 {
             if let syn::Expr::Closure(cl) = &c.args[1] {
+                closure_must_not_escape(cl);
                 if cl.inputs.len() == 1 {
                     let (a, _) = self.src.range(c.span());
                     let (_, ce) = self.src.range(c.span());
@@ -907,16 +1070,25 @@ impl<'a, 'ast> Visit<'ast> for Scanner<'a> {
         // R19b (opt-in `lower=for_each`): `RECV.for_each(|item| BLOCK)` -> `let __fo = verif_fold_items(RECV); let ghost __fos = __fo@; for item in it: __fo BLOCK`
         if self.lower.contains("for_each") && c.method == "for_each" && c.args.len() == 1 {
             if let syn::Expr::Closure(cl) = &c.args[0] {
-                if cl.inputs.len() == 1 && matches!(&*cl.body, syn::Expr::Block(_)) {
+                closure_must_not_escape(cl);
+                if cl.inputs.len() == 1 {
+                    let is_block = matches!(&*cl.body, syn::Expr::Block(_));
                     let (a, _) = self.src.range(c.span());
                     let (_, ce) = self.src.range(c.span());
                     let (bs, be) = self.src.range(cl.body.span());
                     let recv = self.text(c.receiver.span()).trim().to_string();
                     let p_item = self.text(cl.inputs[0].span()).to_string();
                     self.scan.rewrites.push((a, bs, format!("let __fo = verif_fold_items({}); let ghost __fos = __fo@; for {} in it: __fo ", recv, p_item), "R19b".into()));
+                    if !is_block {
+                        // an expression body gets braces: `{ EXPR; }`
+                        self.scan.rewrites.push((bs, bs, "{ ".to_string(), "R19b-late".into()));
+                        self.scan.rewrites.push((be, be, ";".to_string(), "R19b".into()));
+                        self.scan.rewrites.push((be, be, " }".to_string(), "R19b-late".into()));
+                    }
                     self.scan.rewrites.push((be, ce, String::new(), "R19b".into()));
                     let (s0, e0) = self.src.range(c.span());
-                    self.scan.loops.push((bs, be - 1, s0, e0));
+                    self.scan.loops.push((bs, if is_block { be - 1 } else { be }, s0, e0));
+                    if !is_block { self.scan.expr_body_loops.insert(self.scan.loops.len() - 1); }
                     self.record_call("verif_fold_items".into());
                     syn::visit::visit_expr(self, &cl.body);
                     return;
@@ -1076,7 +1248,23 @@ fn main() {
                 CURRENT_FN.with(|c| *c.borrow_mut() = Some(id.clone()));
                 let tags = r.attrs.get("tags").cloned().unwrap_or_default();
                 let body_tags = r.attrs.get("body_tags").cloned().unwrap_or(tags.clone());
-                let src = &files[file];
+                let mut inlined: Vec<serde_json::Value> = vec![];
+                let inl_holder: Option<SrcFile> = r.attrs.get("inline").map(|spec| {
+                    let parts: Vec<&str> = spec.split('@').collect();
+                    if parts.len() != 3 { die(4, format!("inline= wants CALLEE@FILE@IMPL, got {}", spec)); }
+                    let src0 = &files[file];
+                    let mut f0 = vec![];
+                    find_fn(&src0.ast.items, name, r.attrs.get("impl").map(|s| s.as_str()), &mut f0);
+                    if f0.len() != 1 { die(3, format!("lost-anchor: {} candidates for fn {} in {}", f0.len(), name, file)); }
+                    let csrc = SrcFile::load(&repo.join(parts[1]));
+                    let mut c0 = vec![];
+                    find_fn(&csrc.ast.items, parts[0], Some(parts[2]), &mut c0);
+                    if c0.len() != 1 { die(3, format!("lost-anchor: inline: {} candidates for fn {} (impl {}) in {}", c0.len(), parts[0], parts[2], parts[1])); }
+                    let (text, cl) = inline_call(src0, &f0[0], &csrc, &c0[0], parts[0], r.attrs.get("inline_ty").and_then(|x| x.split_once(':')));
+                    inlined.push(json!({"rule": "R22", "callee": parts[0], "file": parts[1], "callee_line": cl}));
+                    SrcFile::from_text(text, &format!("{} with {} inlined", file, parts[0]))
+                });
+                let src = inl_holder.as_ref().unwrap_or(&files[file]);
                 let mut found = vec![];
                 find_fn(&src.ast.items, name, r.attrs.get("impl").map(|s| s.as_str()), &mut found);
                 if let Some(nth) = r.attrs.get("nth").and_then(|x| x.parse::<usize>().ok()) {
@@ -1225,6 +1413,10 @@ fn main() {
                             // `lhs=TEXT`: the N-th one among those whose left operand reads TEXT
                             let cands: Vec<((usize, usize), (usize, usize))> = scan.binops.get(&op).map(|v| v.iter().filter(|(l, _)| match s.kv.get("lhs") { Some(t) => src.text[l.0..l.1].trim() == t, None => true }).cloned().collect()).unwrap_or_default();
                             let (l, r) = cands.get(n).cloned().unwrap_or_else(|| die(3, format!("lost-anchor: binary expression `{}` #{} not found in {}", op, n, id)));
+                            let f = if op == "cmp" {
+                                if s.kv.contains_key("lhs") { die(4, format!("binop cmp does not take lhs= in {}", id)); }
+                                format!("{}_{}", f, scan.cmp_kinds[n])
+                            } else { f };
                             edits.push((l.0, l.0, seq, format!("{}(", f), json!({"kind": "rewrite", "rule": "R16", "fn": id, "tags": body_tags})));
                             seq += 1;
                             edits.push((l.1, r.0, seq, ", ".to_string(), json!({"kind": "rewrite", "rule": "R16", "fn": id, "tags": body_tags})));
@@ -1393,6 +1585,7 @@ fn main() {
                     // or a closure without a contract cannot carry a proof: "needs contract", never a violation)
                     "unannotated_loops": scan.loops.len() as i64 - r.sections.iter().filter(|s| s.kind == "loop").map(|s| s.args.get(0).cloned().unwrap_or_default()).collect::<std::collections::BTreeSet<_>>().len() as i64,
                     "unannotated_closures": scan.closures.len() as i64 - r.sections.iter().filter(|s| s.kind == "closure").map(|s| s.args.get(0).cloned().unwrap_or_default()).collect::<std::collections::BTreeSet<_>>().len() as i64,
+                    "inlined": inlined,
                     "rewrites": scan.rewrites.iter().map(|(a, _b, t, rule)| json!({"rule": rule, "src_line": src.line_of(*a), "to": t}))
                         .chain(edits.iter().filter(|e| e.4["kind"] == "rewrite" && e.4.get("src_line").is_none()).map(|e| json!({"rule": e.4["rule"], "src_line": src.line_of(e.0), "to": e.3})))
                         .collect::<Vec<_>>(),
